@@ -442,6 +442,9 @@ bool judge(const Cfg& c, const Plan& p, const Outcome& o, const std::string& pat
         if (!fired) viol("writer/fault-free-history-fails/" + c.ext(), "no fault fired but " + where_name(c, o) + " threw " + o.ex_type + ": " + o.ex_what);
         if (!o.refusal.empty()) viol("writer/no-refusal-after-error/" + tag, o.refusal + "first exception came from " + where_name(c, o) + " (" + o.ex_what + ")");
     }
+    if (o.st.n_close_released > 0)
+        viol("writer/closes-a-descriptor-it-has-released/" + tag, std::to_string(o.st.n_close_released) + " close() call(s) on the output's descriptor number after it had been given back to the kernel (EBADF; " + inj.str() +
+             "): any open() between the two calls receives that number and loses its file to the second close - another Writer's output is then cut short without an error");
     if (o.threads_after != o.threads_before)
         viol("writer/threads-left-running/" + tag, std::to_string(o.threads_before) + " threads before the Writer was created, " + std::to_string(o.threads_after) + " after it and its pool were destroyed");
     if (!quiet_counters) {
